@@ -108,6 +108,18 @@ impl Case {
         Ok(main)
     }
 
+    /// names the input condition under which a panic is the listed finding F7 / F8 (so that any OTHER panic is not
+    /// mistaken for it): a first-index mapping that points beyond the source, a delta window that starts behind its index
+    fn panic_context(&self) -> &'static str {
+        let m = self.mapping.read().unwrap().clone();
+        let n = self.vals[0].len();
+        match self.kind.as_str() {
+            "agg" if m.iter().any(|&x| x > n) => " [mapping beyond source]",
+            "delta" if m.iter().enumerate().any(|(i, &s)| s > i) => " [empty window]",
+            _ => "",
+        }
+    }
+
     fn exec(&mut self, line: &str) -> String {
         let ws: Vec<&str> = line.split_whitespace().collect();
         let list = |s: &str| -> Vec<u64> { if s == "-" { vec![] } else { s.split(',').filter_map(|x| x.parse().ok()).collect() } };
@@ -139,7 +151,7 @@ impl Case {
                         format!("ok {s}")
                     }
                     Ok(Err(e)) => { fails.push(e); "ok ?".into() }
-                    Err(_) => { fails.push(format!("C15: range({a},{b}) panics")); "panic".into() }
+                    Err(_) => { fails.push(format!("C15: range({a},{b}) panics{}", self.panic_context())); "panic".into() }
                 }
             }
             "one" => {
@@ -158,7 +170,7 @@ impl Case {
                             Some(Some(v)) => format!("ok {v}"),
                         }
                     }
-                    Err(_) => { fails.push(format!("C15: collect_one_at({i}) panics")); "panic".into() }
+                    Err(_) => { fails.push(format!("C15: collect_one_at({i}) panics{}", self.panic_context())); "panic".into() }
                 }
             }
             "sorted" => {
@@ -174,7 +186,7 @@ impl Case {
                         format!("ok {}", nats(&got))
                     }
                     Ok(None) => "unmodelled".into(),
-                    Err(_) => { fails.push("C15: read_sorted_at panics".into()); "panic".into() }
+                    Err(_) => { fails.push(format!("C15: read_sorted_at panics{}", self.panic_context())); "panic".into() }
                 }
             }
             _ => "bad-op".into(),
